@@ -93,8 +93,14 @@ def in_child(fn, args, timeout=CHILD_TIMEOUT):
 
 # ------------------------------------------------------------ oracle children
 
-def _oracle_api(plan, ti, point, wanted):
-    W.setup_side(plan['orac'], {})
+def _fresh_root(root):
+    """An empty private directory tree for one oracle evaluation."""
+    import tempfile
+    return tempfile.mkdtemp(prefix='o', dir=root) if root else None
+
+
+def _oracle_api(plan, ti, point, wanted, root=None):
+    W.setup_side(plan['orac'], {}, _fresh_root(root))
     pv = W.poison_value(plan['orac'])
     t = plan['tasks'][ti]
     if pv is not None:
@@ -103,16 +109,23 @@ def _oracle_api(plan, ti, point, wanted):
     return W.oracle_api(t, point, wanted)
 
 
-def _oracle_cli(plan, argv, npulses):
-    se = W.setup_side(plan['orac'], {})
+def _oracle_cli(plan, argv, npulses, root=None):
+    se = W.setup_side(plan['orac'], {}, _fresh_root(root))
     pv = W.poison_value(plan['orac'])
     if pv is not None:
         S.poison(S.poison_sizes(npulses, [40, 370]), pv)
     return W.run_main(argv, se.disk)
 
 
-def _hist(plan, start, disk, pos, apif):
-    return W.run_history(plan, start, disk, pos, apif)
+def _hist(plan, start, disk, pos, apif, root=None):
+    return W.run_history(plan, start, disk, pos, apif, os.path.join(root, 'h') if root else None)
+
+
+def scratch_root():
+    """Where the private directories of the simulated machines live."""
+    import tempfile
+    base = os.environ.get('VERIF_SCRATCH') or tempfile.gettempdir()
+    return tempfile.mkdtemp(prefix='verif-world-', dir=base)
 
 
 # ------------------------------------------------------------------- clauses
@@ -157,6 +170,15 @@ def api_clause(prior_ops, multi_task, had_other):
 # --------------------------------------------------------------------- world
 
 def run_world(plan, keep=False):
+    import shutil
+    root = scratch_root()
+    try:
+        return _run_world(plan, keep, root)
+    finally:
+        shutil.rmtree(root, ignore_errors=True)
+
+
+def _run_world(plan, keep, root):
     t0 = time.time()
     C.reset_stats()
     LINES.clear()
@@ -165,7 +187,7 @@ def run_world(plan, keep=False):
     epochs = []
     start, disk, pos, apif = 0, None, None, None
     while True:
-        r = in_child(_hist, (plan, start, disk, pos, apif))
+        r = in_child(_hist, (plan, start, disk, pos, apif, root))
         epochs.append(r)
         if r['stop'] is None:
             break
@@ -190,6 +212,9 @@ def run_world(plan, keep=False):
     for t in tasks:
         for p in t.get('probes', []):
             probes[p] = probes.get(p, 0) + 1
+        for f in t.get('features', []):
+            # how often each generator feature was part of an explored model
+            probes['model:' + f.split(':')[0]] = probes.get('model:' + f.split(':')[0], 0) + 1
         if 'geo_all_ge2_not_all' in t.get('features', []):
             probes['geo_all_ge2_not_all'] = probes.get('geo_all_ge2_not_all', 0) + 1
         if 'multi_media' in t.get('features', []):
@@ -208,14 +233,14 @@ def run_world(plan, keep=False):
     def oracle_api(ti, point, wanted):
         key = ('api', ti, tuple(point), tuple(wanted))
         if key not in memo:
-            memo[key] = in_child(_oracle_api, (plan, ti, tuple(point), list(wanted)))
+            memo[key] = in_child(_oracle_api, (plan, ti, tuple(point), list(wanted), root))
             oracle_log.append('%r %s' % (key, W.digest_sections(memo[key])))
         return memo[key]
 
     def oracle_cli(argv, npulses):
         key = ('cli', tuple(argv))
         if key not in memo:
-            memo[key] = in_child(_oracle_cli, (plan, list(argv), npulses))
+            memo[key] = in_child(_oracle_cli, (plan, list(argv), npulses, root))
             oracle_log.append('%r %s' % (key, W.digest_sections(memo[key])))
         return memo[key]
 
@@ -300,6 +325,14 @@ def run_world(plan, keep=False):
                     trivial += 1
                     if ora['outcome'] != sec['outcome']:
                         viol('H1', rec, 'outcome', 'history %s fresh %s' % (sec['outcome'], ora['outcome']))
+                elif not inc or steps <= 1:
+                    # an increment of zero (or a single step) is, by the
+                    # program's own definition, an ordinary single run: judge
+                    # it as a run of this command line
+                    ora = oracle_cli(W.sweep_argv(base, inc, steps, op[4] if len(op) > 4 else 0), t.get('npulses', 10))
+                    evaluations += 1
+                    trivial += 1
+                    compare_run(sec, ora, lambda o, d: viol('H5' if rec.get('fresh') else 'H6', rec, o, d))
                 else:
                     lead, blocks = C.cut_sweep(sec['stdout'])
                     if len(blocks) != steps:
